@@ -104,6 +104,10 @@ def generate(rng, tier, index, backends):
     return {"world": wp, "rpc": r, "image": k, "selections": sels, "enumerate": enum,
             "scribble_results": rng.random() < 0.5, "load_faults": load_faults,
             "create_cache": rng.random() < 0.3,
+            # the selections are applied to a COPY of the lazy variable (pickle round trip,
+            # deepcopy of the tree, DataArray.copy): a copy is the same lazy image
+            "via": rng.choice(["direct"] * 6 + ["pickle", "deepcopy-tree", "da-copy",
+                                                "pickle-tree"]),
             # the image file's metadata changes (same bytes, newer mtime) before this selection
             "touch_before": rng.randrange(len(sels)) if rng.random() < 0.25 else None}
 
@@ -189,6 +193,20 @@ def execute(plan, props):
             open_events = SIM.since(m0)
             twin_tree = w.open(use_cache=False, records_per_chunk=r)
             da = tree["imagery"][grp]["data"]
+            via = plan.get("via", "direct")
+            if via != "direct":
+                import copy
+                import pickle
+
+                if via == "pickle":
+                    da = pickle.loads(pickle.dumps(da))
+                elif via == "pickle-tree":
+                    da = pickle.loads(pickle.dumps(tree))["imagery"][grp]["data"]
+                elif via == "deepcopy-tree":
+                    da = copy.deepcopy(tree)["imagery"][grp]["data"]
+                else:
+                    da = da.copy()
+                bump("via:" + via)
             twin = twin_tree["imagery"][grp]["data"].load()
         except Exception as e:  # noqa: BLE001 - C01/C18 territory, not judged here
             bump("setup-raised:" + type(e).__name__)
